@@ -542,6 +542,14 @@ pub fn gen_op(r: &mut Rng, env: &Env, u: &Universe, focus: &str) -> Op {
     };
     let page = gen_page(r, u, lvl);
     let wmap = if focus == "c10" { 30 } else { 38 };
+    // empty tables are what clean-up is about: unmap a page the history really mapped (not just a random one)
+    if !env.desynced && r.chance(if focus == "c10" { 22 } else { 8 }, 100) {
+        let leaves = env.model.leaves();
+        if !leaves.is_empty() {
+            let (b, l, _, _) = leaves[r.below(leaves.len() as u64) as usize];
+            return Op::Unmap { lvl: l, page: b };
+        }
+    }
     let x = r.below(100);
     if x < wmap {
         let pflags = if r.chance(1, 2) { Some(gen_parent_flags(r)) } else { None };
